@@ -28,7 +28,9 @@ import (
 	"github.com/q191201771/lal/pkg/httpts"
 	"github.com/q191201771/lal/pkg/logic"
 	"github.com/q191201771/lal/pkg/mpegts"
+	"github.com/q191201771/lal/pkg/rtmp"
 	"github.com/q191201771/lal/pkg/rtsp"
+	"github.com/q191201771/lal/pkg/sdp"
 	"github.com/q191201771/naza/pkg/mock"
 )
 
@@ -566,7 +568,237 @@ func c14SmSub(a []string) string {
 	return fmt.Sprintf("%s %s %s %s %s", code, tokNum(uint64(listed)), tokBool(wrote), tokBool(kick.ErrorCode == base.ErrorCodeSucc), tokBool(closed))
 }
 
+// the six session callbacks of ServerManager, each given a real session object in the state
+// the protocol server hands it over in
+func c14SmCb(a []string) string {
+	c14SmMu.Lock()
+	defer c14SmMu.Unlock()
+	httpflv.SubSessionWriteChanSize = 0
+	httpts.SubSessionWriteChanSize = 0
+	sm := c14Sm(intTok(a[0]), c14Str(a[1]), c14Str(a[2]))
+	cb := intTok(a[3])
+	stream, param := c14Str(a[4]), c14Str(a[5])
+	q := ""
+	if param != "" {
+		q = "?" + param
+	}
+	conn := newFakeConn(nil)
+	var err error
+	var id string
+	isPub := false
+	switch cb {
+	case 0, 1:
+		s := rtmp.NewServerSession(nopRtmpObserver{}, conn)
+		s.VerifC14SetStream("rtmp://127.0.0.1/live", "live", stream, param, cb == 0)
+		id = s.UniqueKey()
+		if cb == 0 {
+			isPub = true
+			if err = sm.OnNewRtmpPubSession(s); err == nil {
+				defer sm.OnDelRtmpPubSession(s)
+			}
+		} else {
+			if err = sm.OnNewRtmpSubSession(s); err == nil {
+				defer sm.OnDelRtmpSubSession(s)
+			}
+		}
+	case 2:
+		urlCtx, perr := base.ParseHttpflvUrl("http://127.0.0.1:8080/live/" + stream + ".flv" + q)
+		if perr != nil {
+			return "err-url"
+		}
+		s := httpflv.NewSubSession(conn, urlCtx, false, "")
+		if s.StreamName() != stream || s.RawQuery() != param {
+			return "generator-url-mismatch"
+		}
+		id = s.UniqueKey()
+		if err = sm.OnNewHttpflvSubSession(s); err == nil {
+			defer sm.OnDelHttpflvSubSession(s)
+		}
+	case 3:
+		urlCtx, perr := base.ParseUrl("http://127.0.0.1:8080/live/"+stream+".ts"+q, -1)
+		if perr != nil {
+			return "err-url"
+		}
+		s := httpts.NewSubSession(conn, urlCtx, false, "")
+		if s.StreamName() != stream || s.RawQuery() != param {
+			return "generator-url-mismatch"
+		}
+		id = s.UniqueKey()
+		if err = sm.OnNewHttptsSubSession(s); err == nil {
+			defer sm.OnDelHttptsSubSession(s)
+		}
+	case 4, 5:
+		urlCtx, perr := base.ParseRtspUrl("rtsp://127.0.0.1:5544/live/" + stream + q)
+		if perr != nil {
+			return "err-url"
+		}
+		if urlCtx.LastItemOfPath != stream || urlCtx.RawQuery != param {
+			return "generator-url-mismatch"
+		}
+		cmd := rtsp.NewServerCommandSession(&c14RtspObserver{}, conn, rtsp.ServerAuthConfig{}, false, "")
+		if cb == 4 {
+			isPub = true
+			s := rtsp.NewPubSession(urlCtx, cmd)
+			sdpCtx, _ := sdp.ParseSdp2LogicContext([]byte(c14Sdp))
+			s.InitWithSdp(sdpCtx)
+			id = s.UniqueKey()
+			if err = sm.OnNewRtspPubSession(s); err == nil {
+				defer sm.OnDelRtspPubSession(s)
+			}
+		} else {
+			s := rtsp.NewSubSession(urlCtx, cmd)
+			id = s.UniqueKey()
+			ok, _ := sm.OnNewRtspSubSessionDescribe(s)
+			if ok {
+				defer sm.OnDelRtspSubSession(s)
+			} else {
+				err = base.ErrRtspClosedByObserver
+			}
+		}
+	default:
+		panic("bad callback")
+	}
+	code := "0x1"
+	switch err {
+	case nil:
+		code = "0x0"
+	case base.ErrSimpleAuthParamNotFound:
+		code = "0x2"
+	case base.ErrSimpleAuthFailed:
+		code = "0x3"
+	}
+	attached := false
+	for _, g := range sm.StatAllGroup() {
+		if isPub && g.StatPub.SessionId == id {
+			attached = true
+		}
+		for _, sub := range g.StatSubs {
+			if sub.SessionId == id {
+				attached = true
+			}
+		}
+	}
+	return code + " " + tokBool(attached)
+}
+
+// ServerManager.serveHls behind an http.ServeMux, on the sandbox of c14.hlsserve: histories of
+// requests (from chosen remote addresses), add_ip_blacklist calls and clock advances
+func c14ServeHlsSm(flags int, key, ovr, root string) *logic.ServerManager {
+	conf := map[string]interface{}{
+		"conf_version": base.ConfVersion,
+		"log":          map[string]interface{}{"level": 5, "filename": "", "is_to_stdout": false, "is_rotate_daily": false, "short_file_flag": false, "timestamp_flag": false, "timestamp_with_ms_flag": false, "level_flag": false, "assert_behavior": 1},
+		"hls": map[string]interface{}{"enable": true, "url_pattern": "/hls/", "out_path": root, "fragment_duration_ms": 3000, "fragment_num": 6,
+			"delete_threshold": 6, "cleanup_mode": 0, "use_memory_as_disk_flag": false, "sub_session_timeout_ms": 0, "sub_session_hash_key": ""},
+		"simple_auth": map[string]interface{}{"key": key, "dangerous_lal_secret": ovr, "hls_m3u8_enable": flags&64 != 0},
+	}
+	raw, err := json.Marshal(conf)
+	if err != nil {
+		panic(err)
+	}
+	return logic.NewServerManager(func(o *logic.Option) { o.ConfRawContent = raw })
+}
+
+func c14ServeHls(a []string) string {
+	c14SmMu.Lock()
+	defer c14SmMu.Unlock()
+	top := filepath.Join(os.TempDir(), fmt.Sprintf("lalverif-c14-servehls-%d", os.Getpid()))
+	c14FillSandbox(top, true)
+	defer os.RemoveAll(top)
+	flags, key, ovr := intTok(a[0]), c14Str(a[1]), c14Str(a[2])
+	scen := strings.Split(a[3], "|")
+	muxes := make([]*http.ServeMux, len(scen))
+	sms := make([]*logic.ServerManager, len(scen))
+	for i := range scen {
+		sm := c14ServeHlsSm(flags, key, ovr, top+"/T1/T2/outer/root")
+		mux := http.NewServeMux()
+		mux.HandleFunc("/hls/", sm.VerifServeHls)
+		sms[i], muxes[i] = sm, mux
+	}
+	for attempt := 0; attempt < 4; attempt++ {
+		if out, ok := c14ServeHlsOnce(scen, sms, muxes); ok {
+			return out
+		}
+		// let every entry of the failed attempt expire
+		time.Sleep(1200 * time.Millisecond)
+	}
+	return "clock-unstable"
+}
+
+func c14ServeHlsOnce(scen []string, sms []*logic.ServerManager, muxes []*http.ServeMux) (string, bool) {
+	out := make([]string, len(scen))
+	now := time.Now()
+	start := now.Truncate(time.Second).Add(time.Second + 300*time.Millisecond)
+	time.Sleep(start.Sub(now))
+	startUnix := start.Unix()
+	var wg sync.WaitGroup
+	var badMu sync.Mutex
+	bad := false
+	for i, sc := range scen {
+		wg.Add(1)
+		go func(i int, sc string) {
+			defer wg.Done()
+			virt := int64(0)
+			var res []string
+			onTime := func() {
+				if time.Now().Unix() != startUnix+virt {
+					badMu.Lock()
+					bad = true
+					badMu.Unlock()
+				}
+			}
+			for _, o := range strings.Split(sc, ",") {
+				f := strings.Split(o, ":")
+				switch f[0] {
+				case "G":
+					req := httptest.NewRequest("GET", "http://127.0.0.1:8080"+c14Str(f[4]), nil)
+					req.RemoteAddr = c14Str(f[1]) + ":4567"
+					rec := httptest.NewRecorder()
+					onTime()
+					muxes[i].ServeHTTP(rec, req)
+					onTime()
+					body := rec.Body.Bytes()
+					switch {
+					case rec.Code == http.StatusOK && len(body) > 0:
+						res = append(res, "200:"+hexOf(body))
+					case rec.Code == http.StatusOK:
+						res = append(res, "200-empty")
+					default:
+						if len(body) > 0 && rec.Code != http.StatusMovedPermanently {
+							res = append(res, strconv.Itoa(rec.Code)+"+body")
+						} else {
+							res = append(res, strconv.Itoa(rec.Code))
+						}
+					}
+				case "B":
+					d, err := strconv.Atoi(f[2])
+					if err != nil {
+						panic("bad duration")
+					}
+					onTime()
+					sms[i].CtrlAddIpBlacklist(base.ApiCtrlAddIpBlacklistReq{Ip: c14Str(f[1]), DurationSec: d})
+					onTime()
+				case "S":
+					n, err := strconv.Atoi(f[1])
+					if err != nil {
+						panic("bad sleep")
+					}
+					virt += int64(n)
+					time.Sleep(time.Until(start.Add(time.Duration(virt) * time.Second)))
+				}
+			}
+			if len(res) == 0 {
+				res = []string{"-"}
+			}
+			out[i] = strings.Join(res, ",")
+		}(i, sc)
+	}
+	wg.Wait()
+	return strings.Join(out, "|"), !bad
+}
+
 func init() {
+	register("c14.smcb", c14SmCb)
+	register("c14.servehls", c14ServeHls)
 	register("c14.smsub", c14SmSub)
 	register("c14.simple", func(a []string) string {
 		f := intTok(a[0])
